@@ -906,6 +906,16 @@ impl<'b> InnerBucket<'b> {
                             let mut sibling = sibling.borrow_mut();
                             // Copy this node's data over to it's sibling
                             sibling.data.merge(&mut node.data);
+                            if index == 0 {
+                                // The right sibling now starts with this node's first key. Keep its
+                                // key in the parent in step, so that it can still be found if the
+                                // parent's branches are later moved behind those of another node.
+                                let key = sibling.data.first_key();
+                                if let NodeData::Branches(branches) = &mut parent.data {
+                                    branches[index + 1].key = key.clone();
+                                }
+                                sibling.original_key = Some(key);
+                            }
                             if !node.children.is_empty() {
                                 // Move all children nodes over to that sibling too
                                 for child in node.children.iter() {
